@@ -491,7 +491,7 @@ def check_bad(case, ctx):
     elif kind == "no_program":
         text = rb.encode(hrp, [version], spec)
     elif kind == "obs:nonzero_padding":
-        ln = [20, 32, 2, 3, 7, 39][n % 6]
+        ln = [21, 32, 2, 3, 7, 39][n % 6]  # lengths whose last 5-bit group contains padding bits
         d5 = rb.to5(raw[:ln])
         d5[-1] |= 1
         text = rb.encode(hrp, [version] + d5, spec)
